@@ -190,13 +190,18 @@ func c02(c *ctx) {
 					switch {
 					case (b.Op == token.NEQ || b.Op == token.EQL) && ((px == hdrH && strings.HasSuffix(py, blkH)) || (py == hdrH && strings.HasSuffix(px, blkH))):
 						return "certHeight==blockHeight", b.Op == token.NEQ
-					case b.Op == token.GTR && px == "$1" && strings.HasSuffix(py, blkH):
-						return "local>block", false
-					case b.Op == token.LSS && px == "$1" && strings.HasSuffix(py, blkH):
-						return "local<block", false
-					case (b.Op == token.EQL || b.Op == token.NEQ) && px == "$0.Results" && py == "nil":
+					case isOrdering(b.Op):
+						isLocal := func(x ssa.Value) bool { return c.p.path(x) == "$1" }
+						isBlk := func(y ssa.Value) bool { return strings.HasSuffix(c.p.path(y), blkH) }
+						if m, neg := ordMatchV(b, token.GTR, isLocal, isBlk); m {
+							return "local>block", neg
+						}
+						if m, neg := ordMatchV(b, token.LSS, isLocal, isBlk); m {
+							return "local<block", neg
+						}
+					case (b.Op == token.EQL || b.Op == token.NEQ) && ((px == "$0.Results" && py == "nil") || (py == "$0.Results" && px == "nil")):
 						return "results==nil", b.Op == token.NEQ
-					case (b.Op == token.EQL || b.Op == token.NEQ) && px == "$0.Block" && py == "nil":
+					case (b.Op == token.EQL || b.Op == token.NEQ) && ((px == "$0.Block" && py == "nil") || (py == "$0.Block" && px == "nil")):
 						return "block==nil", b.Op == token.NEQ
 					}
 				}
@@ -238,14 +243,9 @@ func c02(c *ctx) {
 				}
 				return ""
 			},
-			atom: func(v ssa.Value) (string, bool) {
-				if b, ok := v.(*ssa.BinOp); ok && (b.Op == token.LSS || b.Op == token.GEQ) {
-					if f, _ := loadedField(b.Y); f == min23 && strings.Contains(c.p.path(b.X), "GetSigners(") {
-						return "signed<min23", b.Op == token.GEQ
-					}
-				}
-				return "", false
-			},
+			atom: ordAtom("signed<min23", token.LSS,
+				func(x ssa.Value) bool { return strings.Contains(c.p.path(x), "GetSigners(") },
+				func(y ssa.Value) bool { f, _ := loadedField(y); return f == min23 }),
 			// target: returns that may report (isPartial=false, err=nil), i.e. "full +2/3 certificate"
 			target: func(in ssa.Instruction, st *PState, e *pathEngine) string {
 				ret, ok := in.(*ssa.Return)
